@@ -175,7 +175,8 @@ pub fn run_history_src<R: Read + std::io::Seek>(src: R, src_len: usize, privs: &
                                 }
                                 let n = sizes[k.min(sizes.len() - 1)] as usize;
                                 let mut buf = vec![0u8; n];
-                                let res = if single {
+                                let res = if single || n == 0 {
+                                    // (a zero-length read is issued as such: it must return Ok(0) and change nothing)
                                     f.data.read(&mut buf)
                                 } else {
                                     // read until n or end
@@ -230,16 +231,19 @@ pub fn run_history_src<R: Read + std::io::Seek>(src: R, src_len: usize, privs: &
             4 => {
                 let chosen: Vec<String> = op[1..].iter().map(|i| name_at(*i)).collect();
                 let r = catch(|| {
-                    let mut export: HashMap<&String, Vec<u8>> = HashMap::new();
-                    for n in &chosen {
-                        export.insert(n, Vec::new());
+                    // sinks that accept only part of each write (a different amount per sink; the
+                    // first one everything): what they collect must not depend on it
+                    let mut export: HashMap<&String, ThrottledWriter> = HashMap::new();
+                    for (j, n) in chosen.iter().enumerate() {
+                        let sched = if j == 0 { vec![] } else { vec![(j * 37) % 97 + 1] };
+                        export.insert(n, ThrottledWriter::new(sched, if j % 3 == 2 { 4 } else { 0 }));
                     }
                     match linear_extract(&mut rd, &mut export) {
                         Ok(()) => {
                             let mut out = vec![vec![0u64]];
                             for n in &chosen {
                                 let mut row = vec![6u64];
-                                row.extend(export.get(n).unwrap().iter().map(|b| *b as u64));
+                                row.extend(export.get(n).unwrap().data.iter().map(|b| *b as u64));
                                 out.push(row);
                             }
                             out
